@@ -45,6 +45,9 @@ type C17Plan struct {
 	Content   int         `json:"content"` // 0 random, 1 zeros, 2 periodic (all chunks identical)
 	Checksum  bool        `json:"checksum"`
 	NameLen   int         `json:"name_len"`
+	// CopyRename: the Rename seam copies the temp file to the destination and
+	// removes it (the documented cross-filesystem use) instead of os.Rename.
+	CopyRename bool `json:"copy_rename,omitempty"`
 }
 
 type c17 struct{ noPrepare }
@@ -57,6 +60,7 @@ func (p *c17) NewPlan() any  { return &C17Plan{} }
 func (p *c17) Rule() string {
 	return "one file per run moved by the real fdo.download, fdo.upload or fdo.wget module pair inside a real TO2 under the seeded scheduler; sizes 1..~20k with every size around chunk and MTU multiples (k*c-1, k*c, k*c+1), contents random/zero/periodic, download chunk sizes 1..65535 and 0/negative defaults, MTUs 128..65535 in both directions; faults: one of {data byte flipped, data message dropped, duplicated, swapped with its successor, shortened, extended; announced length decreased/increased; announced digest bit-flipped} applied between the tunnel and the receiving module, disk faults {CreateTemp fails, temp file not writable, rename fails, destination directory missing}, wget server faults {500, body truncated, body read error, body byte flipped, stall beyond the timeout}; a reference model computes from the messages actually delivered whether received length and SHA-384 match the announcement; oracle: a file at the destination implies bytes identical to what was received, under the announced name, with matching length and digest; match and no disk fault implies the file is there, TO2 succeeds and the receiver reports the size; mismatch or disk fault implies no file at the destination, nothing else in the destination directory, and no positive report; non-trivial = a fault fired; distinct = distinct (kind, fault, size class, schedule, outcome)"
 }
+func (p *c17) DeadlockIsViolation() bool { return true }
 func (p *c17) Exhaustive(string) bool { return false }
 func (p *c17) Components() map[string][]string {
 	return map[string][]string{
@@ -100,6 +104,7 @@ func (p *c17) Plan(tier string, seed uint64, i int) any {
 	pl.Content = []int{0, 0, 0, 1, 2}[r.IntN(5)]
 	pl.Checksum = true
 	pl.NameLen = 1 + r.IntN(24)
+	pl.CopyRename = r.IntN(3) == 0
 	switch pl.Kind {
 	case "download":
 		pl.ChunkSize = []int{0, -1, 1, 2, 7, 100, 255, 256, 1013, 1014, 1015, 4096, 65535}[r.IntN(13)]
@@ -160,6 +165,7 @@ func (p *c17) Shrink(plan any) []any {
 	add(func(c *C17Plan) { c.Size = max(1, c.Size-1) })
 	add(func(c *C17Plan) { c.At = c.At / 2 })
 	add(func(c *C17Plan) { c.Must = true })
+	add(func(c *C17Plan) { c.CopyRename = false })
 	return out
 }
 
@@ -632,6 +638,11 @@ func (p *c17) Exec(env *Env, plan any) {
 	w := NewWorld(k)
 	defer InstallHooks(nil)
 	node := w.AddSimNode("aio", "mfg", "owner1")
+	if pl.DevMTU > 60000 || pl.OwnMTU > 60000 {
+		// service-info MTUs near the maximum need an HTTP layer that admits the
+		// framed, encrypted message
+		w.MaxContent, node.MaxContent = 1<<20, 1<<20
+	}
 	node.Sim.SetYield(nil) // interleavings of interest: the device pipeline and the wget goroutine
 	w.Net.MaxMsgs = 1500
 	if pl.OwnMTU > 0 {
@@ -679,6 +690,16 @@ func (p *c17) Exec(env *Env, plan any) {
 			o.Fault(pl.Fault)
 			diskFault = pl.Fault
 			return errors.New("simulated: cross-device link")
+		}
+		if pl.CopyRename {
+			b, err := os.ReadFile(oldp)
+			if err != nil {
+				return err
+			}
+			if err := os.WriteFile(newp, b, 0o644); err != nil {
+				return err
+			}
+			return os.Remove(oldp)
 		}
 		return os.Rename(oldp, newp)
 	}
